@@ -180,6 +180,7 @@ inductive Reply (α : Type)
   | unauth (hdr : Bytes)  -- 401 with this www-authenticate header
   | notfound              -- 404
   | status                -- any other status ≥ 400
+  | follow                -- 3xx with a Location the client follows (same URL again): the request is re-issued
 deriving Repr
 
 inductive MBody
@@ -189,8 +190,10 @@ deriving DecidableEq, Repr
 
 inductive DirRep
   | redirect   -- 307 (or 200) with a Location on another host
-  | noloc      -- 200 without Location
-  | badstatus  -- e.g. 302 to another host / 204
+  | noloc      -- 200 or 307 without Location (`resp.Location()` fails)
+  | badstatus  -- any other status handed back: 301/302/303/308 to another host or without Location, 204 …
+  | badloc     -- 3xx whose Location does not parse: the client itself fails the request
+  | redirectDead  -- a well-formed redirect to a host that then fails every request
 deriving DecidableEq, Repr
 
 inductive Src
@@ -282,25 +285,37 @@ def authStep (cfg : Cfg) (realm hdr : Bytes) (net : Net) : R Unit × Net :=
       (if t then .ok () else .err .auth, { net with tok := ts, nt := net.nt + 1 })
     else (.err .auth, net)
 
+/-- one `http.Client.Do`: redirects that the client follows re-issue the request (each one is a request on
+    the stream); after `budget` requests the client gives up with an error (`budget` = 10 for the default
+    policy, 11 for the direct-URL `CheckRedirect`, `len(via) > 10`) -/
+def popFollow {α : Type} (dflt : Reply α) : Nat → List (Reply α) → Reply α × List (Reply α) × Nat
+  | 0, s => (.neterr, s, 0)
+  | b + 1, s =>
+    match pop dflt s with
+    | (.follow, s') =>
+      let (r, s'', n) := popFollow dflt b s'
+      (r, s'', n + 1)
+    | (r, s') => (r, s', 1)
+
 /-- `makeRequestWithRetry` (`for range 2`); returns the result, the rest of the script, the
     net state and the number of requests made on this stream -/
-def mrr {α : Type} (cfg : Cfg) (realm : Bytes) (dflt : Reply α) :
+def mrr {α : Type} (cfg : Cfg) (realm : Bytes) (dflt : Reply α) (budget : Nat) :
     Nat → List (Reply α) → Net → R α × List (Reply α) × Net × Nat
   | 0, s, net => (.err .unauthorized, s, net, 0)
   | k + 1, s, net =>
-    let (r, s') := pop dflt s
-    match r with
-    | .pass a => (.ok a, s', net, 1)
-    | .neterr => (.err .net, s', net, 1)
-    | .notfound => (.err .notfound, s', net, 1)
-    | .status => (.err .http, s', net, 1)
-    | .unauth hdr =>
+    match popFollow dflt budget s with
+    | (.pass a, s', n) => (.ok a, s', net, n)
+    | (.neterr, s', n) => (.err .net, s', net, n)
+    | (.follow, s', n) => (.err .net, s', net, n)
+    | (.notfound, s', n) => (.err .notfound, s', net, n)
+    | (.status, s', n) => (.err .http, s', net, n)
+    | (.unauth hdr, s', n) =>
       match authStep cfg realm hdr net with
       | (.ok (), net') =>
-        let (x, s'', net'', n) := mrr cfg realm dflt k s' net'
-        (x, s'', net'', n + 1)
-      | (.err e, net') => (.err e, s', net', 1)
-      | (.panic p, net') => (.panic p, s', net', 1)
+        let (x, s'', net'', m) := mrr cfg realm dflt budget k s' net'
+        (x, s'', net'', m + n)
+      | (.err e, net') => (.err e, s', net', n)
+      | (.panic p, net') => (.panic p, s', net', n)
 
 /-! ## Parts -/
 
@@ -471,18 +486,21 @@ def runPartsIdx (cfg : Cfg) (content : Bytes) (scripts : List (List ChunkReply))
 def byNumber (n : Nat) (res : List (Nat × Part)) : List Part :=
   (List.range n).filterMap fun i => lookupIdx i res
 
-/-- the direct-URL loop of `run` (retries every error with backoff for 30 s) -/
+/-- the direct-URL loop of `run` (retries every error with backoff for 30 s); `ok dead`: a direct URL
+    was obtained (`dead`: on a host that fails every request) -/
 def directLoop (cfg : Cfg) (realm : Bytes) (dflt : Reply DirRep) :
-    Nat → List (Reply DirRep) → Net → R Unit × Net
+    Nat → List (Reply DirRep) → Net → R Bool × Net
   | 0, _, net => (.err .deadline, { net with dStar := true })
   | f + 1, s, net =>
     if s.isEmpty && replyFails dflt then (.err .deadline, { net with dStar := true })
     else
-      match mrr cfg realm dflt 2 s net with
-      | (.ok .redirect, _, net', n) => (.ok (), { net' with nd := net'.nd + n })
+      match mrr cfg realm dflt 11 2 s net with
+      | (.ok .redirect, _, net', n) => (.ok false, { net' with nd := net'.nd + n })
+      | (.ok .redirectDead, _, net', n) => (.ok true, { net' with nd := net'.nd + n })
       | (.ok .noloc, _, net', n) => (.err .noLocation, { net' with nd := net'.nd + n })
       | (.ok .badstatus, _, net', n) => (.err .directStatus, { net' with nd := net'.nd + n })
       | (.panic p, _, net', n) => (.panic p, { net' with nd := net'.nd + n })
+      | (.ok .badloc, s', net', n) => directLoop cfg realm dflt f s' { net' with nd := net'.nd + n }
       | (.err _, s', net', n) => directLoop cfg realm dflt f s' { net' with nd := net'.nd + n }
 
 /-- `downloadBlob` for a digest whose file does not exist: Prepare, run.
@@ -497,7 +515,7 @@ def downloadLayer (cfg : Cfg) (reg : Registry) (d : Digest) (ls : LScript) (pa :
       let dflt : Reply Nat := match has with
         | some c => .pass c.length
         | none => .notfound
-      match mrr cfg reg.realm dflt 2 ls.head net with
+      match mrr cfg reg.realm dflt 10 2 ls.head net with
       | (.ok total, _, net', n) => (.ok (plan cfg total, total), { net' with nh := net'.nh + n })
       | (.err e, _, net', n) => (.err e, { net' with nh := net'.nh + n })
       | (.panic p, _, net', n) => (.panic p, { net' with nh := net'.nh + n })
@@ -514,11 +532,13 @@ def downloadLayer (cfg : Cfg) (reg : Registry) (d : Digest) (ls : LScript) (pa :
     match directLoop cfg reg.realm dfltD (ls.direct.length + 2) ls.direct net1 with
     | (.err e, net2) => (.err e, ⟨some file, parts⟩, net2)
     | (.panic p, net2) => (.panic p, ⟨some file, parts⟩, net2)
-    | (.ok (), net2) =>
+    | (.ok dead, net2) =>
+      -- a dead direct host: every chunk request of every part fails
+      let chunks := if dead then List.replicate parts.length (List.replicate cfg.retries ChunkReply.neterr) else ls.chunks
       let (ok, file', parts', c) :=
-        if pa.parts.isEmpty then runParts cfg content parts ls.chunks file net2.nc
+        if pa.parts.isEmpty then runParts cfg content parts chunks file net2.nc
         else
-          let (ok, file', res, c) := runPartsIdx cfg content ls.chunks (globParts parts) file net2.nc
+          let (ok, file', res, c) := runPartsIdx cfg content chunks (globParts parts) file net2.nc
           (ok, file', byNumber parts.length res, c)
       let net3 := { net2 with nc := c }
       if ok then (.ok file', Partial.none, net3)
@@ -615,7 +635,7 @@ def pull (cfg : Cfg) (hash : Bytes → Digest) (name : Name) (reg : Registry) (s
     | some (.readable m) => (m.all.map (·.digest))
     | _ => []
   let net0 : Net := { tok := sc.token }
-  match mrr cfg reg.realm (.pass .served) 2 sc.manifest net0 with
+  match mrr cfg reg.realm (.pass .served) 10 2 sc.manifest net0 with
   | (.err _, _, net1, n) => (.err .manifest, st, ⟨{ net1 with nm := n }, []⟩)
   | (.panic p, _, net1, n) => (.panic p, st, ⟨{ net1 with nm := n }, []⟩)
   | (.ok .badjson, _, net1, n) => (.err .manifest, st, ⟨{ net1 with nm := n }, []⟩)
